@@ -361,6 +361,7 @@ func C04(r *vf.Run) {
 		r.Sample(map[string]interface{}{"mapper": m.name, "bus": "$808000", "pak": fmt.Sprintf("$%06x", first(m.b2p(0x808000)))})
 	}
 	interleavedWithLibrary(r, func(m *mapper, a uint32, cells map[string]int64) { c04Check(r, m, a, cells) })
+	runsThenJumps(r, func(m *mapper, a uint32) { c04Check(r, m, a, map[string]int64{}) })
 	usedAtInitTime(r)
 	otherOrders(r)
 	runChild(r, "library-first", "VERIF_LIB_FIRST=1", "VERIF_MAPPER_ORDER=0,1,2,3")
@@ -591,6 +592,7 @@ func C05(r *vf.Run) {
 		r.CellN("cross:console-addresses", n)
 	}
 	interleavedWithLibrary(r, func(m *mapper, a uint32, cells map[string]int64) { c05Check(r, m, a) })
+	runsThenJumps(r, func(m *mapper, a uint32) { c05Check(r, m, a) })
 	callVolume(r, func(m *mapper, a uint32) { c05Check(r, m, a) })
 	usedAtInitTime(r)
 	otherOrders(r)
